@@ -7,6 +7,8 @@
  *        drop<k>: pass only the first k arguments (too few -> FormatError)
  *   rt <S|F> <pos> <I|F|S> <value>                 show_to at pos, then look_from at pos into a fresh object
  *   ps <S|F> <pos> <spec> <I|F> <n> <values>       print_to each value with "<spec> ", then scan_from them back
+ *   sio <modes> <I|F|S> <value> ...                one line per value through the stdout / stdin entry points: println("%$") (p: print("%$\n")),
+ *                                                  read back by  l scanln("%$")   k look() + scanln("")   s scan("%$") + scanln("")
  * Expected renderings of the conversions come from snprintf with the same specification (the C library is the oracle).
  */
 #include "hc.h"
@@ -136,6 +138,47 @@ int main(int argc, char** argv) {
       ev_int("showbad", showbad); bytes_key("out", outb, on); ev_int("ret", ret); ev_str("exc", hc_exc); ev_str("msg", hc_msg); ev_int("nargs", pass); ev_int("nconv", nconv);
       bytes_key("fmt", fmt, strlen(fmt)); ev_int("line", cur_line); ev_end();
       HC_TRY(del_raw(s)); for (int i = 0; i < np; i++) free(parts[i]);
+      continue;
+    }
+    if (hc_is(0, "sio")) {
+      const char* modes = hc_w[1]; int n = (hc_nw - 2) / 2; if (n > 40) n = 40;
+      char path[160]; snprintf(path, sizeof path, "%s/stdio", dir);
+      var vs[40]; int wrote[40]; const char* wexc = ""; char wm[160] = "";
+      fflush(stdout); int saved = dup(1);
+      if (!freopen(path, "w", stdout)) return 9;
+      for (int i = 0; i < n; i++) {
+        vs[i] = mkarg(hc_w[2 + 2 * i][0], hc_w[3 + 2 * i]); volatile int r = -1;
+        if (modes[i % strlen(modes)] == 'p') HC_TRY(r = print("%$\n", vs[i])); else HC_TRY(r = println("%$", vs[i]));
+        if (hc_exc[0] && !wexc[0]) { wexc = hc_exc; strcpy(wm, hc_msg); }
+        wrote[i] = r;
+      }
+      fflush(stdout); dup2(saved, 1); close(saved);
+      size_t on = 0; { FILE* g = fopen(path, "rb"); if (g) { on = fread(outb, 1, sizeof outb - 1, g); fclose(g); } outb[on] = 0; }
+      if (!freopen(path, "r", stdin)) return 9;
+      size_t off = 0;
+      for (int i = 0; i < n; i++) {
+        char kind = hc_w[2 + 2 * i][0], m = modes[i % strlen(modes)];
+        var back = kind == 'I' ? (var)new_raw(Int, $I(-12345)) : kind == 'F' ? (var)new_raw(Float, $F(-1.25)) : (var)new_raw(String, $S("?"));
+        long t0 = ftell(stdin); const char* e2 = ""; char m2[160] = "";
+        if (!wexc[0]) {
+          if (m == 'k') { HC_TRY(look(back)); if (!hc_exc[0]) HC_TRY(scanln("")); }
+          else if (m == 's') { HC_TRY(scan("%$", back)); if (!hc_exc[0]) HC_TRY(scanln("")); }
+          else HC_TRY(scanln("%$", back));
+          e2 = hc_exc; strcpy(m2, hc_msg);
+        }
+        long t1 = ftell(stdin);
+        char* txt = outb + (off < on ? off : on); size_t tl = wrote[i] > 0 && off + (size_t)wrote[i] <= on ? (size_t)wrote[i] : 0;
+        ev_begin("round"); ev_str("via", "stdio"); ev_str("sink", "F"); ev_str("kind", kind == 'I' ? "I" : kind == 'F' ? "F" : "S");
+        if (kind == 'I') { raw_int("v", c_int(vs[i])); raw_int("back", c_int(back)); raw_int("denoted", strtoll(txt, NULL, 10)); }
+        else if (kind == 'F') { raw_flt("v", c_float(vs[i])); raw_flt("back", c_float(back)); raw_flt("denoted", strtod(txt, NULL)); }
+        else { bytes_key("v", c_str(vs[i]), strlen(c_str(vs[i]))); bytes_key("back", c_str(back), strlen(c_str(back))); bytes_key("denoted", c_str(vs[i]), strlen(c_str(vs[i]))); }
+        ev_int("wrote", wrote[i]); ev_int("consumed", (long long)(t1 - t0)); bytes_key("text", txt, tl);
+        ev_str("exc", wexc[0] ? wexc : e2); ev_str("msg", wexc[0] ? wm : m2); ev_int("line", cur_line); ev_end();
+        off += tl; del_raw(back);
+      }
+      for (int i = 0; i < n; i++) del_raw(vs[i]);
+      if (!freopen("/dev/null", "r", stdin)) return 9;
+      unlink(path);
       continue;
     }
     if (hc_is(0, "rt") || hc_is(0, "ps")) {
